@@ -365,6 +365,9 @@ func (f *File) startSegmentIfNeeded(b Box, boxStartPos uint64) {
 	default:
 		segStart = (segIdx == 0)
 	}
+	if !segStart && len(f.Segments) == 0 {
+		segStart = true // There must be a segment to put the box in
+	}
 	if segStart {
 		f.isFragmented = true
 		ms := MediaSegment{
